@@ -42,8 +42,9 @@ def generate(ctx):
 
 
 def build(ctx, files):
-    # the generated TUs dominate the cost: ~1 s per (grammar, skipper, char type) instantiation
-    return vlib.build_harness("c02_harness_%s_%d" % (ctx.tier, ctx.seed), ["c02_main.cpp"] + files, libs=("core",))
+    # the generated TUs dominate the cost (measured, g++ 12, ASan+UBSan: 17 s CPU per TU of 7 grammars x 2
+    # skippers at -O1, 8 s at -O0): built at -O0, still with ASan+UBSan
+    return vlib.build_harness("c02_harness_%s_%d" % (ctx.tier, ctx.seed), ["c02_main.cpp"] + files, libs=("core",), opt="-O0")
 
 
 def write_inputs(path, strings):
